@@ -203,6 +203,8 @@ def stepSave (st : St) (ins impl : List String) : Option (St × String) := do
       let known := st.known ++ paths evs
       let final := run st.fs evs
       -- model side
+      -- "same+fsize=123": the part after '+' is a fault for the harness only
+      let probe := (probe.splitOn "+").headD probe
       let modelProg := instanceOf st.dest probe expectCommit nExtra evs
       let modelStr := match modelProg with
         | none => "no-instance"
